@@ -226,7 +226,7 @@ def keptBy (p : Option IntOrPct) (R : Int) : Int :=
 def nonneg (x : Int) : Int := if x < 0 then 0 else x
 
 /-- one round of the simulated CloneSet controller (`bgcSim.env`), all pods healthy:
-    the generation is observed; while two revisions exist and the CloneSet is not paused, pods of the update revision
+    a new generation is observed first (nothing else in that round); then, while two revisions exist and the CloneSet is not paused, pods of the update revision
     appear as far as the partition allows — at once when `minReadySeconds` is an ordinary value (old pods are replaced),
     but with `minReadySeconds = MaxReadySeconds` no pod ever becomes available: new pods exist only as surge
     (`maxSurge`), old pods go only within `maxUnavailable`;  with one revision the CloneSet has exactly `replicas` pods. -/
@@ -237,7 +237,9 @@ def bgEnv (b : BW) : BW :=
     match wl.replicas with
     | none => b
     | some R =>
-      let b1 := { b with observedGeneration := b.generation }
+      -- the sync that observes a new generation reports the pods it found; what it does to them shows in the next one
+      if b.generation ≠ b.observedGeneration then { b with observedGeneration := b.generation } else
+      let b1 := b
       if b.updateRevision ≠ b.currentRevision then
         if wl.paused then b1 else
         let want := R - keptBy wl.partition R
